@@ -259,7 +259,7 @@ def run(ctx):
                "shutdown_read() by the application ends accounting (the application declared it stopped reading)")
     ctx.build(extra_modules=["PV.Model.ChanDriver"])
     rng = ctx.rng
-    n = 4000 if ctx.thorough else 500
+    n = 6000 if ctx.thorough else 1500
     batches = []
     for i in range(n):
         case, reqs, impl, fails, info, outcome, rounds, codes = run_pair(ctx, rng, with_close=rng.random() < 0.3)
@@ -300,11 +300,16 @@ META = {
               "in_window_sofar stays below the 10% threshold (every_byte_counts_back), no reachable quiescent state "
               "has a sender window below 90% of the advertised one — so none has a zero window (stuck_impossible), and "
               "a writer woken there leaves _wait_for_send_window with a non-empty reservation "
-              "(quiescent_sender_proceeds). C20_witness: the code before the repair loses discarded bytes for good."),
+              "(quiescent_sender_proceeds). Liveness skeleton: every run of enabled drain actions (wire writes of held "
+              "messages, deliveries, reads of buffered data, _check_add_window) is bounded by a measure "
+              "(draining_terminates), a state with no drain action enabled is quiescent (drained_is_quiescent), hence "
+              "has an open window (drained_sender_window_open). conservation_reverse: same for the other direction. "
+              "C20_witness: the code before the repair loses discarded bytes for good."),
     "note": ("Liveness is stated as impossibility of the stuck state plus progress of a woken writer; 'eventually' "
              "needs the fairness hypotheses listed under assumptions (reader keeps reading, links deliver, waiter is "
-             "woken) which are not proved (OS scheduler / application). A bound on the number of drain steps is not "
-             "formalised. shutdown_read() ends accounting by design. Trusted: rig pv/lib_chan.py, FIFO links."),
+             "woken) which are not proved (OS scheduler / application): the theorems show that fair scheduling of the "
+             "drain actions reaches, in boundedly many steps, a state whose window is open. shutdown_read() ends "
+             "accounting by design. Trusted: rig pv/lib_chan.py, FIFO links."),
     "technique": "Lean 4 proof (inductive invariant over a two-process interleaving semantics with message links) + "
                  "deterministic back-to-back differential correspondence + credit-sum oracle on the real objects",
 }
